@@ -1,1 +1,953 @@
-//! cqlref::value - independent reference (see DESIGN.md 1.3). Owned by the builder of the property that needs it.
+//! cqlref::value - independent reference codec for CQL v4 values (DESIGN.md 1.3, C01/C17).
+//!
+//! Written from the native protocol v4 specification (section 6, "Data type serialization
+//! formats"), Cassandra's `VIntCoding` (duration) and Cassandra 5.0's `VectorType` layout.
+//! Shares no code with the crates under test and has no dependencies. Deliberately boring.
+//!
+//! Model
+//! * `Type`   - a column type (20 natives, list/set/map, tuple, UDT, vector).
+//! * `Value`  - a logical value; floats are carried as bit patterns, uuids/varints as raw bytes so that
+//!              equality on `Value` is *bitwise* equality of what goes on the wire.
+//! * `Cell`   - a `[value]` of the protocol: null (-1), not set (-2) or a byte body.
+//! * `encode` - (type, value) -> cell, `decode` - (type, cell) -> canonical value,
+//!   `canon`  - (type, value) -> the value a conforming decoder must hand back for it, computed
+//!              structurally (without going through bytes); `decode(encode(v)) == canon(v)` is the
+//!              reference's own consistency check and is asserted by the checks for every case.
+//!
+//! Canonical-form rules (each is a wire-level identity, not a liberty of the oracle):
+//! * a tuple value with fewer elements than its type, or a UDT value that does not name every field,
+//!   decodes with the missing positions as null;
+//! * a zero-length body is the legacy "empty" value for every type except ascii/text/blob, where it is
+//!   the empty string/blob (so `Empty` bound to text comes back as `""`, and a zero-byte varint, a tuple
+//!   given zero elements, a 0-dimensional vector all come back as `Empty`).
+
+use std::fmt;
+
+#[derive(Clone, Copy, Debug, PartialEq, Eq, Hash, PartialOrd, Ord)]
+pub enum Native {
+    Ascii,
+    Boolean,
+    Blob,
+    Counter,
+    Date,
+    Decimal,
+    Double,
+    Duration,
+    Float,
+    Int,
+    BigInt,
+    Text,
+    Timestamp,
+    Inet,
+    SmallInt,
+    TinyInt,
+    Time,
+    Timeuuid,
+    Uuid,
+    Varint,
+}
+
+impl Native {
+    pub const ALL: [Native; 20] = [
+        Native::Int,
+        Native::Text,
+        Native::Boolean,
+        Native::BigInt,
+        Native::Varint,
+        Native::Ascii,
+        Native::Blob,
+        Native::Counter,
+        Native::Date,
+        Native::Decimal,
+        Native::Double,
+        Native::Duration,
+        Native::Float,
+        Native::Timestamp,
+        Native::Inet,
+        Native::SmallInt,
+        Native::TinyInt,
+        Native::Time,
+        Native::Timeuuid,
+        Native::Uuid,
+    ];
+
+    pub fn name(self) -> &'static str {
+        match self {
+            Native::Ascii => "ascii",
+            Native::Boolean => "boolean",
+            Native::Blob => "blob",
+            Native::Counter => "counter",
+            Native::Date => "date",
+            Native::Decimal => "decimal",
+            Native::Double => "double",
+            Native::Duration => "duration",
+            Native::Float => "float",
+            Native::Int => "int",
+            Native::BigInt => "bigint",
+            Native::Text => "text",
+            Native::Timestamp => "timestamp",
+            Native::Inet => "inet",
+            Native::SmallInt => "smallint",
+            Native::TinyInt => "tinyint",
+            Native::Time => "time",
+            Native::Timeuuid => "timeuuid",
+            Native::Uuid => "uuid",
+            Native::Varint => "varint",
+        }
+    }
+
+    pub fn from_name(s: &str) -> Option<Native> {
+        Native::ALL.iter().copied().find(|n| n.name() == s)
+    }
+
+    /// Serialized width if Cassandra's `VectorType` treats the element type as fixed-length
+    /// (`AbstractType.valueLengthIfFixed`): boolean 1, int/float 4, bigint/double/timestamp 8,
+    /// uuid/timeuuid 16. Everything else (incl. tinyint, smallint, date, time, counter) is variable-length.
+    pub fn vector_fixed_width(self) -> Option<usize> {
+        match self {
+            Native::Boolean => Some(1),
+            Native::Int | Native::Float => Some(4),
+            Native::BigInt | Native::Double | Native::Timestamp => Some(8),
+            Native::Uuid | Native::Timeuuid => Some(16),
+            _ => None,
+        }
+    }
+
+    /// ascii/text/blob: a zero-length body is an ordinary value (the empty string), not "empty".
+    pub fn is_stringish(self) -> bool {
+        matches!(self, Native::Ascii | Native::Text | Native::Blob)
+    }
+}
+
+#[derive(Clone, Debug, PartialEq, Eq, Hash, PartialOrd, Ord)]
+pub enum Type {
+    Native(Native),
+    List(Box<Type>),
+    Set(Box<Type>),
+    Map(Box<Type>, Box<Type>),
+    Tuple(Vec<Type>),
+    Udt { keyspace: String, name: String, fields: Vec<(String, Type)> },
+    Vector(Box<Type>, u16),
+}
+
+impl Type {
+    pub fn depth(&self) -> usize {
+        match self {
+            Type::Native(_) => 0,
+            Type::List(t) | Type::Set(t) | Type::Vector(t, _) => 1 + t.depth(),
+            Type::Map(k, v) => 1 + k.depth().max(v.depth()),
+            Type::Tuple(ts) => 1 + ts.iter().map(|t| t.depth()).max().unwrap_or(0),
+            Type::Udt { fields, .. } => 1 + fields.iter().map(|(_, t)| t.depth()).max().unwrap_or(0),
+        }
+    }
+
+    /// Width if a vector treats this as a fixed-length element (natives per table; vector of fixed = w x dim).
+    pub fn vector_fixed_width(&self) -> Option<usize> {
+        match self {
+            Type::Native(n) => n.vector_fixed_width(),
+            Type::Vector(t, d) => t.vector_fixed_width().map(|w| w * *d as usize),
+            _ => None,
+        }
+    }
+
+    pub fn is_stringish(&self) -> bool {
+        matches!(self, Type::Native(n) if n.is_stringish())
+    }
+
+    /// Shape string without dimensions/names: used in stable violation keys.
+    pub fn shape(&self) -> String {
+        match self {
+            Type::Native(n) => n.name().to_string(),
+            Type::List(t) => format!("list<{}>", t.shape()),
+            Type::Set(t) => format!("set<{}>", t.shape()),
+            Type::Map(k, v) => format!("map<{},{}>", k.shape(), v.shape()),
+            Type::Tuple(ts) => format!("tuple<{}>", ts.iter().map(|t| t.shape()).collect::<Vec<_>>().join(",")),
+            Type::Udt { fields, .. } => format!("udt<{}>", fields.iter().map(|(_, t)| t.shape()).collect::<Vec<_>>().join(",")),
+            Type::Vector(t, _) => format!("vector<{}>", t.shape()),
+        }
+    }
+}
+
+impl fmt::Display for Type {
+    fn fmt(&self, f: &mut fmt::Formatter<'_>) -> fmt::Result {
+        match self {
+            Type::Native(n) => f.write_str(n.name()),
+            Type::List(t) => write!(f, "list<{t}>"),
+            Type::Set(t) => write!(f, "set<{t}>"),
+            Type::Map(k, v) => write!(f, "map<{k},{v}>"),
+            Type::Tuple(ts) => {
+                f.write_str("tuple<")?;
+                for (i, t) in ts.iter().enumerate() {
+                    if i > 0 {
+                        f.write_str(",")?;
+                    }
+                    write!(f, "{t}")?;
+                }
+                f.write_str(">")
+            }
+            Type::Udt { keyspace, name, fields } => {
+                write!(f, "udt:{keyspace}.{name}<")?;
+                for (i, (n, t)) in fields.iter().enumerate() {
+                    if i > 0 {
+                        f.write_str(",")?;
+                    }
+                    write!(f, "{n}:{t}")?;
+                }
+                f.write_str(">")
+            }
+            Type::Vector(t, d) => write!(f, "vector<{t},{d}>"),
+        }
+    }
+}
+
+/// Parse the `Display` form back (used by replay artefacts). Names must not contain `<>,:.`.
+pub fn parse_type(s: &str) -> Result<Type, String> {
+    let mut p = TypeParser { s: s.as_bytes(), i: 0 };
+    let t = p.ty()?;
+    if p.i != p.s.len() {
+        return Err(format!("trailing input at {} in {s:?}", p.i));
+    }
+    Ok(t)
+}
+
+struct TypeParser<'a> {
+    s: &'a [u8],
+    i: usize,
+}
+impl TypeParser<'_> {
+    fn ident(&mut self) -> String {
+        let st = self.i;
+        while self.i < self.s.len() && !b"<>,:.".contains(&self.s[self.i]) {
+            self.i += 1;
+        }
+        String::from_utf8_lossy(&self.s[st..self.i]).into_owned()
+    }
+    fn eat(&mut self, c: u8) -> Result<(), String> {
+        if self.i < self.s.len() && self.s[self.i] == c {
+            self.i += 1;
+            Ok(())
+        } else {
+            Err(format!("expected {:?} at {}", c as char, self.i))
+        }
+    }
+    fn peek(&self) -> Option<u8> {
+        self.s.get(self.i).copied()
+    }
+    fn ty(&mut self) -> Result<Type, String> {
+        let id = self.ident();
+        match id.as_str() {
+            "list" | "set" => {
+                self.eat(b'<')?;
+                let t = self.ty()?;
+                self.eat(b'>')?;
+                Ok(if id == "list" { Type::List(Box::new(t)) } else { Type::Set(Box::new(t)) })
+            }
+            "map" => {
+                self.eat(b'<')?;
+                let k = self.ty()?;
+                self.eat(b',')?;
+                let v = self.ty()?;
+                self.eat(b'>')?;
+                Ok(Type::Map(Box::new(k), Box::new(v)))
+            }
+            "vector" => {
+                self.eat(b'<')?;
+                let t = self.ty()?;
+                self.eat(b',')?;
+                let d = self.ident().parse::<u16>().map_err(|e| e.to_string())?;
+                self.eat(b'>')?;
+                Ok(Type::Vector(Box::new(t), d))
+            }
+            "tuple" => {
+                self.eat(b'<')?;
+                let mut ts = Vec::new();
+                if self.peek() == Some(b'>') {
+                    self.i += 1;
+                    return Ok(Type::Tuple(ts));
+                }
+                loop {
+                    ts.push(self.ty()?);
+                    if self.peek() == Some(b',') {
+                        self.i += 1;
+                    } else {
+                        break;
+                    }
+                }
+                self.eat(b'>')?;
+                Ok(Type::Tuple(ts))
+            }
+            "udt" => {
+                self.eat(b':')?;
+                let keyspace = self.ident();
+                self.eat(b'.')?;
+                let name = self.ident();
+                self.eat(b'<')?;
+                let mut fields = Vec::new();
+                if self.peek() == Some(b'>') {
+                    self.i += 1;
+                    return Ok(Type::Udt { keyspace, name, fields });
+                }
+                loop {
+                    let n = self.ident();
+                    self.eat(b':')?;
+                    let t = self.ty()?;
+                    fields.push((n, t));
+                    if self.peek() == Some(b',') {
+                        self.i += 1;
+                    } else {
+                        break;
+                    }
+                }
+                self.eat(b'>')?;
+                Ok(Type::Udt { keyspace, name, fields })
+            }
+            other => Native::from_name(other).map(Type::Native).ok_or_else(|| format!("unknown type name {other:?}")),
+        }
+    }
+}
+
+#[derive(Clone, Debug, PartialEq, Eq, Hash, PartialOrd, Ord)]
+pub enum Value {
+    /// null `[bytes]` (length -1); allowed wherever the protocol has a `[bytes]`/`[value]` slot.
+    Null,
+    /// "not set" (length -2); only meaningful as a top-level bound value.
+    Unset,
+    /// the zero-length legacy "empty" value.
+    Empty,
+    Ascii(String),
+    Text(String),
+    Blob(Vec<u8>),
+    Boolean(bool),
+    TinyInt(i8),
+    SmallInt(i16),
+    Int(i32),
+    BigInt(i64),
+    Counter(i64),
+    /// IEEE-754 bit pattern (so NaN payloads and -0.0 are compared exactly)
+    Float(u32),
+    Double(u64),
+    /// days since epoch, centred at 2^31
+    Date(u32),
+    /// nanoseconds since midnight
+    Time(i64),
+    /// milliseconds since epoch
+    Timestamp(i64),
+    Duration { months: i32, days: i32, nanos: i64 },
+    /// 4 or 16 address bytes
+    Inet(Vec<u8>),
+    Uuid([u8; 16]),
+    Timeuuid([u8; 16]),
+    /// two's-complement big-endian bytes exactly as given (possibly sign-padded, possibly zero-length)
+    Varint(Vec<u8>),
+    Decimal { scale: i32, unscaled: Vec<u8> },
+    List(Vec<Value>),
+    Set(Vec<Value>),
+    Map(Vec<(Value, Value)>),
+    /// positional; may be shorter than the type; elements may be `Null`
+    Tuple(Vec<Value>),
+    /// bound by field *name* into the type's field order; unnamed fields are null
+    Udt(Vec<(String, Value)>),
+    Vector(Vec<Value>),
+}
+
+#[derive(Clone, Debug, PartialEq, Eq)]
+pub enum Cell {
+    Null,
+    Unset,
+    Bytes(Vec<u8>),
+}
+
+impl Cell {
+    /// The `[value]` framing: 4-byte big-endian signed length, then the body; -1 null; -2 not set.
+    pub fn framed(&self) -> Vec<u8> {
+        match self {
+            Cell::Null => (-1i32).to_be_bytes().to_vec(),
+            Cell::Unset => (-2i32).to_be_bytes().to_vec(),
+            Cell::Bytes(b) => {
+                let mut v = (b.len() as i32).to_be_bytes().to_vec();
+                v.extend_from_slice(b);
+                v
+            }
+        }
+    }
+}
+
+// ------------------------------------------------------------------------------------------------
+// vints (Cassandra VIntCoding): the number of leading 1 bits of the first byte is the number of
+// extra bytes; the remaining bits of the first byte are the most significant bits of the value.
+
+pub fn unsigned_vint(v: u64) -> Vec<u8> {
+    let bits = 64 - v.leading_zeros() as usize; // significant bits
+    // n bytes carry 7n value bits for n = 1..8; 9 bytes carry 64
+    let mut n = 9;
+    for cand in 1..=8usize {
+        if bits <= 7 * cand {
+            n = cand;
+            break;
+        }
+    }
+    if n == 9 {
+        let mut out = vec![0xFFu8];
+        out.extend_from_slice(&v.to_be_bytes());
+        return out;
+    }
+    let be = v.to_be_bytes();
+    let mut out = be[8 - n..].to_vec();
+    // prefix: n-1 one bits then a zero bit
+    let prefix: u8 = if n == 1 { 0 } else { !(0xFFu8 >> (n - 1)) };
+    out[0] |= prefix;
+    out
+}
+
+pub fn read_unsigned_vint(buf: &mut &[u8]) -> Result<u64, String> {
+    let first = *buf.first().ok_or("vint: no bytes")?;
+    let extra = first.leading_ones() as usize;
+    if buf.len() < 1 + extra {
+        return Err(format!("vint: need {} bytes, have {}", 1 + extra, buf.len()));
+    }
+    let mut v: u64 = if extra >= 8 { 0 } else { (first & (0xFFu8 >> extra)) as u64 };
+    for b in &buf[1..1 + extra] {
+        v = (v << 8) | *b as u64;
+    }
+    *buf = &buf[1 + extra..];
+    Ok(v)
+}
+
+pub fn zigzag(v: i64) -> u64 {
+    ((v << 1) ^ (v >> 63)) as u64
+}
+pub fn unzigzag(u: u64) -> i64 {
+    ((u >> 1) as i64) ^ -((u & 1) as i64)
+}
+pub fn signed_vint(v: i64) -> Vec<u8> {
+    unsigned_vint(zigzag(v))
+}
+
+// ------------------------------------------------------------------------------------------------
+// encode
+
+#[derive(Clone, Copy, Debug, Default)]
+pub struct EncodeOpts {
+    /// Alternative, equally valid encoding: omit trailing null fields of UDT values (the protocol lets a
+    /// UDT value carry fewer fields than the type, e.g. after ALTER TYPE ADD). Used to drive decoders.
+    pub udt_drop_trailing_nulls: bool,
+}
+
+pub fn encode(t: &Type, v: &Value) -> Result<Cell, String> {
+    encode_with(t, v, EncodeOpts::default())
+}
+
+pub fn encode_with(t: &Type, v: &Value, o: EncodeOpts) -> Result<Cell, String> {
+    match v {
+        Value::Null => Ok(Cell::Null),
+        Value::Unset => Ok(Cell::Unset),
+        _ => body(t, v, o).map(Cell::Bytes),
+    }
+}
+
+fn put_bytes(out: &mut Vec<u8>, t: &Type, v: &Value, o: EncodeOpts) -> Result<(), String> {
+    match v {
+        Value::Null => out.extend_from_slice(&(-1i32).to_be_bytes()),
+        Value::Unset => return Err("not-set inside a composite value".into()),
+        _ => {
+            let b = body(t, v, o)?;
+            if b.len() > i32::MAX as usize {
+                return Err("body too long".into());
+            }
+            out.extend_from_slice(&(b.len() as i32).to_be_bytes());
+            out.extend_from_slice(&b);
+        }
+    }
+    Ok(())
+}
+
+fn mismatch(t: &Type, v: &Value) -> String {
+    format!("value {v:?} is not a value of type {t}")
+}
+
+/// Body of a non-null value.
+fn body(t: &Type, v: &Value, o: EncodeOpts) -> Result<Vec<u8>, String> {
+    if let Value::Empty = v {
+        return Ok(Vec::new());
+    }
+    Ok(match (t, v) {
+        (Type::Native(n), v) => match (n, v) {
+            (Native::Ascii, Value::Ascii(s)) => {
+                if !s.is_ascii() {
+                    return Err("non-ascii in ascii".into());
+                }
+                s.as_bytes().to_vec()
+            }
+            (Native::Text, Value::Text(s)) => s.as_bytes().to_vec(),
+            (Native::Blob, Value::Blob(b)) => b.clone(),
+            (Native::Boolean, Value::Boolean(b)) => vec![*b as u8],
+            (Native::TinyInt, Value::TinyInt(x)) => x.to_be_bytes().to_vec(),
+            (Native::SmallInt, Value::SmallInt(x)) => x.to_be_bytes().to_vec(),
+            (Native::Int, Value::Int(x)) => x.to_be_bytes().to_vec(),
+            (Native::BigInt, Value::BigInt(x)) => x.to_be_bytes().to_vec(),
+            (Native::Counter, Value::Counter(x)) => x.to_be_bytes().to_vec(),
+            (Native::Float, Value::Float(bits)) => bits.to_be_bytes().to_vec(),
+            (Native::Double, Value::Double(bits)) => bits.to_be_bytes().to_vec(),
+            (Native::Date, Value::Date(d)) => d.to_be_bytes().to_vec(),
+            (Native::Time, Value::Time(x)) => x.to_be_bytes().to_vec(),
+            (Native::Timestamp, Value::Timestamp(x)) => x.to_be_bytes().to_vec(),
+            (Native::Duration, Value::Duration { months, days, nanos }) => {
+                let mut out = signed_vint(*months as i64);
+                out.extend(signed_vint(*days as i64));
+                out.extend(signed_vint(*nanos));
+                out
+            }
+            (Native::Inet, Value::Inet(a)) => {
+                if a.len() != 4 && a.len() != 16 {
+                    return Err("inet must be 4 or 16 bytes".into());
+                }
+                a.clone()
+            }
+            (Native::Uuid, Value::Uuid(u)) => u.to_vec(),
+            (Native::Timeuuid, Value::Timeuuid(u)) => u.to_vec(),
+            (Native::Varint, Value::Varint(b)) => b.clone(),
+            (Native::Decimal, Value::Decimal { scale, unscaled }) => {
+                let mut out = scale.to_be_bytes().to_vec();
+                out.extend_from_slice(unscaled);
+                out
+            }
+            _ => return Err(mismatch(t, v)),
+        },
+        (Type::List(et), Value::List(xs)) | (Type::Set(et), Value::Set(xs)) => {
+            let mut out = (xs.len() as i32).to_be_bytes().to_vec();
+            for x in xs {
+                put_bytes(&mut out, et, x, o)?;
+            }
+            out
+        }
+        (Type::Map(kt, vt), Value::Map(kvs)) => {
+            let mut out = (kvs.len() as i32).to_be_bytes().to_vec();
+            for (k, x) in kvs {
+                put_bytes(&mut out, kt, k, o)?;
+                put_bytes(&mut out, vt, x, o)?;
+            }
+            out
+        }
+        (Type::Tuple(ts), Value::Tuple(xs)) => {
+            if xs.len() > ts.len() {
+                return Err("tuple value longer than its type".into());
+            }
+            let mut out = Vec::new();
+            for (x, et) in xs.iter().zip(ts) {
+                put_bytes(&mut out, et, x, o)?;
+            }
+            out
+        }
+        (Type::Udt { fields, .. }, Value::Udt(named)) => {
+            for (i, (n, _)) in named.iter().enumerate() {
+                if !fields.iter().any(|(fname, _)| fname == n) {
+                    return Err(format!("UDT value names unknown field {n:?}"));
+                }
+                if named[..i].iter().any(|(m, _)| m == n) {
+                    return Err(format!("UDT value names field {n:?} twice"));
+                }
+            }
+            let ordered: Vec<(&Type, &Value)> = fields
+                .iter()
+                .map(|(fname, ft)| (ft, named.iter().find(|(n, _)| n == fname).map(|(_, x)| x).unwrap_or(&Value::Null)))
+                .collect();
+            let mut keep = ordered.len();
+            if o.udt_drop_trailing_nulls {
+                while keep > 0 && *ordered[keep - 1].1 == Value::Null {
+                    keep -= 1;
+                }
+            }
+            let mut out = Vec::new();
+            for (ft, x) in &ordered[..keep] {
+                put_bytes(&mut out, ft, x, o)?;
+            }
+            out
+        }
+        (Type::Vector(et, dim), Value::Vector(xs)) => {
+            if xs.len() != *dim as usize {
+                return Err(format!("vector value has {} elements, type has dimension {dim}", xs.len()));
+            }
+            let mut out = Vec::new();
+            let fixed = et.vector_fixed_width();
+            for x in xs {
+                if matches!(x, Value::Null | Value::Unset) {
+                    return Err("vector elements cannot be null".into());
+                }
+                let b = body(et, x, o)?;
+                match fixed {
+                    Some(w) => {
+                        if b.len() != w {
+                            return Err(format!("fixed-width vector element has {} bytes, expected {w}", b.len()));
+                        }
+                    }
+                    None => out.extend(unsigned_vint(b.len() as u64)),
+                }
+                out.extend_from_slice(&b);
+            }
+            out
+        }
+        _ => return Err(mismatch(t, v)),
+    })
+}
+
+// ------------------------------------------------------------------------------------------------
+// decode
+
+pub fn decode(t: &Type, c: &Cell) -> Result<Value, String> {
+    match c {
+        Cell::Null => Ok(Value::Null),
+        Cell::Unset => Err("not-set is not decodable".into()),
+        Cell::Bytes(b) => decode_body(t, b),
+    }
+}
+
+fn take<'a>(buf: &mut &'a [u8], n: usize) -> Result<&'a [u8], String> {
+    if buf.len() < n {
+        return Err(format!("need {n} bytes, have {}", buf.len()));
+    }
+    let (a, b) = buf.split_at(n);
+    *buf = b;
+    Ok(a)
+}
+
+fn take_i32(buf: &mut &[u8]) -> Result<i32, String> {
+    let b = take(buf, 4)?;
+    Ok(i32::from_be_bytes([b[0], b[1], b[2], b[3]]))
+}
+
+/// One `[bytes]`: None for null.
+fn take_bytes<'a>(buf: &mut &'a [u8]) -> Result<Option<&'a [u8]>, String> {
+    let n = take_i32(buf)?;
+    if n < 0 {
+        return Ok(None);
+    }
+    take(buf, n as usize).map(Some)
+}
+
+fn decode_slot(t: &Type, buf: &mut &[u8]) -> Result<Value, String> {
+    match take_bytes(buf)? {
+        None => Ok(Value::Null),
+        Some(b) => decode_body(t, b),
+    }
+}
+
+fn exact<const N: usize>(b: &[u8]) -> Result<[u8; N], String> {
+    <[u8; N]>::try_from(b).map_err(|_| format!("expected {N} bytes, got {}", b.len()))
+}
+
+pub fn decode_body(t: &Type, b: &[u8]) -> Result<Value, String> {
+    if b.is_empty() && !t.is_stringish() {
+        return Ok(Value::Empty);
+    }
+    Ok(match t {
+        Type::Native(n) => match n {
+            Native::Ascii => {
+                if !b.is_ascii() {
+                    return Err("non-ascii bytes in ascii".into());
+                }
+                Value::Ascii(String::from_utf8(b.to_vec()).map_err(|e| e.to_string())?)
+            }
+            Native::Text => Value::Text(String::from_utf8(b.to_vec()).map_err(|e| e.to_string())?),
+            Native::Blob => Value::Blob(b.to_vec()),
+            Native::Boolean => Value::Boolean(exact::<1>(b)?[0] != 0),
+            Native::TinyInt => Value::TinyInt(i8::from_be_bytes(exact(b)?)),
+            Native::SmallInt => Value::SmallInt(i16::from_be_bytes(exact(b)?)),
+            Native::Int => Value::Int(i32::from_be_bytes(exact(b)?)),
+            Native::BigInt => Value::BigInt(i64::from_be_bytes(exact(b)?)),
+            Native::Counter => Value::Counter(i64::from_be_bytes(exact(b)?)),
+            Native::Float => Value::Float(u32::from_be_bytes(exact(b)?)),
+            Native::Double => Value::Double(u64::from_be_bytes(exact(b)?)),
+            Native::Date => Value::Date(u32::from_be_bytes(exact(b)?)),
+            Native::Time => Value::Time(i64::from_be_bytes(exact(b)?)),
+            Native::Timestamp => Value::Timestamp(i64::from_be_bytes(exact(b)?)),
+            Native::Duration => {
+                let mut r = b;
+                let months = unzigzag(read_unsigned_vint(&mut r)?);
+                let days = unzigzag(read_unsigned_vint(&mut r)?);
+                let nanos = unzigzag(read_unsigned_vint(&mut r)?);
+                if !r.is_empty() {
+                    return Err("trailing bytes after duration".into());
+                }
+                Value::Duration {
+                    months: i32::try_from(months).map_err(|_| "duration months out of range")?,
+                    days: i32::try_from(days).map_err(|_| "duration days out of range")?,
+                    nanos,
+                }
+            }
+            Native::Inet => {
+                if b.len() != 4 && b.len() != 16 {
+                    return Err(format!("inet of {} bytes", b.len()));
+                }
+                Value::Inet(b.to_vec())
+            }
+            Native::Uuid => Value::Uuid(exact(b)?),
+            Native::Timeuuid => Value::Timeuuid(exact(b)?),
+            Native::Varint => Value::Varint(b.to_vec()),
+            Native::Decimal => {
+                let mut r = b;
+                let scale = take_i32(&mut r)?;
+                Value::Decimal { scale, unscaled: r.to_vec() }
+            }
+        },
+        Type::List(et) | Type::Set(et) => {
+            let mut r = b;
+            let n = take_i32(&mut r)?;
+            if n < 0 {
+                return Err("negative element count".into());
+            }
+            let mut xs = Vec::new();
+            for _ in 0..n {
+                xs.push(decode_slot(et, &mut r)?);
+            }
+            if matches!(t, Type::List(_)) { Value::List(xs) } else { Value::Set(xs) }
+        }
+        Type::Map(kt, vt) => {
+            let mut r = b;
+            let n = take_i32(&mut r)?;
+            if n < 0 {
+                return Err("negative element count".into());
+            }
+            let mut kvs = Vec::new();
+            for _ in 0..n {
+                let k = decode_slot(kt, &mut r)?;
+                let v = decode_slot(vt, &mut r)?;
+                kvs.push((k, v));
+            }
+            Value::Map(kvs)
+        }
+        Type::Tuple(ts) => {
+            let mut r = b;
+            let mut xs = Vec::new();
+            for et in ts {
+                if r.is_empty() {
+                    xs.push(Value::Null); // fewer fields than the type: the rest is null
+                } else {
+                    xs.push(decode_slot(et, &mut r)?);
+                }
+            }
+            Value::Tuple(xs)
+        }
+        Type::Udt { fields, .. } => {
+            let mut r = b;
+            let mut xs = Vec::new();
+            for (n, ft) in fields {
+                if r.is_empty() {
+                    xs.push((n.clone(), Value::Null));
+                } else {
+                    xs.push((n.clone(), decode_slot(ft, &mut r)?));
+                }
+            }
+            Value::Udt(xs)
+        }
+        Type::Vector(et, dim) => {
+            let mut r = b;
+            let mut xs = Vec::new();
+            let fixed = et.vector_fixed_width();
+            for _ in 0..*dim {
+                let eb = match fixed {
+                    Some(w) => take(&mut r, w)?,
+                    None => {
+                        let n = read_unsigned_vint(&mut r)?;
+                        take(&mut r, n as usize)?
+                    }
+                };
+                xs.push(decode_body(et, eb)?);
+            }
+            Value::Vector(xs)
+        }
+    })
+}
+
+// ------------------------------------------------------------------------------------------------
+// canonical form (what a conforming decoder returns for `encode(t, v)`), computed without bytes
+
+pub fn canon(t: &Type, v: &Value) -> Result<Value, String> {
+    Ok(match (t, v) {
+        (_, Value::Null) => Value::Null,
+        (_, Value::Unset) => return Err("not-set has no decoded form".into()),
+        (Type::Native(Native::Ascii), Value::Empty) => Value::Ascii(String::new()),
+        (Type::Native(Native::Text), Value::Empty) => Value::Text(String::new()),
+        (Type::Native(Native::Blob), Value::Empty) => Value::Blob(Vec::new()),
+        (_, Value::Empty) => Value::Empty,
+        (Type::Native(Native::Varint), Value::Varint(b)) if b.is_empty() => Value::Empty,
+        (Type::Native(_), v) => {
+            // validity is the encoder's business
+            v.clone()
+        }
+        (Type::List(et), Value::List(xs)) => Value::List(xs.iter().map(|x| canon(et, x)).collect::<Result<_, _>>()?),
+        (Type::Set(et), Value::Set(xs)) => Value::Set(xs.iter().map(|x| canon(et, x)).collect::<Result<_, _>>()?),
+        (Type::Map(kt, vt), Value::Map(kvs)) => Value::Map(kvs.iter().map(|(k, x)| Ok((canon(kt, k)?, canon(vt, x)?))).collect::<Result<_, String>>()?),
+        (Type::Tuple(ts), Value::Tuple(xs)) => {
+            if xs.is_empty() {
+                // zero fields written: a zero-length body
+                return Ok(Value::Empty);
+            }
+            let mut out = Vec::new();
+            for (i, et) in ts.iter().enumerate() {
+                out.push(match xs.get(i) {
+                    Some(x) => canon(et, x)?,
+                    None => Value::Null,
+                });
+            }
+            Value::Tuple(out)
+        }
+        (Type::Udt { fields, .. }, Value::Udt(named)) => {
+            if fields.is_empty() {
+                return Ok(Value::Empty);
+            }
+            let mut out = Vec::new();
+            for (n, ft) in fields {
+                let x = named.iter().find(|(m, _)| m == n).map(|(_, x)| x).unwrap_or(&Value::Null);
+                out.push((n.clone(), canon(ft, x)?));
+            }
+            Value::Udt(out)
+        }
+        (Type::Vector(et, _), Value::Vector(xs)) => {
+            if xs.is_empty() || et.vector_fixed_width() == Some(0) {
+                return Ok(Value::Empty); // zero-length body
+            }
+            Value::Vector(xs.iter().map(|x| canon(et, x)).collect::<Result<_, _>>()?)
+        }
+        _ => return Err(mismatch(t, v)),
+    })
+}
+
+/// True if the canonical form of this (type, value) differs from the value only by the stated rules
+/// having fired somewhere (short tuple/UDT padded, zero-length aliasing). For counters.
+pub fn is_padded_or_aliased(t: &Type, v: &Value) -> bool {
+    match canon(t, v) {
+        Ok(c) => &c != v,
+        Err(_) => false,
+    }
+}
+
+/// Immediate sub-cases (child type, child value) of a composite case; used to shrink counterexamples.
+pub fn children<'a>(t: &'a Type, v: &'a Value) -> Vec<(&'a Type, &'a Value)> {
+    match (t, v) {
+        (Type::List(et), Value::List(xs)) | (Type::Set(et), Value::Set(xs)) | (Type::Vector(et, _), Value::Vector(xs)) => xs.iter().map(|x| (&**et, x)).collect(),
+        (Type::Map(kt, vt), Value::Map(kvs)) => kvs.iter().flat_map(|(k, x)| [(&**kt, k), (&**vt, x)]).collect(),
+        (Type::Tuple(ts), Value::Tuple(xs)) => ts.iter().zip(xs).collect(),
+        (Type::Udt { fields, .. }, Value::Udt(named)) => named.iter().filter_map(|(n, x)| fields.iter().find(|(m, _)| m == n).map(|(_, ft)| (ft, x))).collect(),
+        _ => Vec::new(),
+    }
+}
+
+// ------------------------------------------------------------------------------------------------
+// pinned vectors (taken from the repository's unit tests; a wrong reference must show up here)
+
+/// Runs the reference against byte vectors pinned in the driver's own unit tests
+/// (frame/types.rs vint table, serialize/value_tests.rs, deserialize/value_tests.rs). Returns the
+/// number of vectors checked or a description of the first disagreement.
+pub fn self_test() -> Result<usize, String> {
+    let mut n = 0usize;
+    // unsigned vint table (subset covering every length and both edges of each length)
+    let vints: &[(u64, &[u8])] = &[
+        (0, &[0]),
+        (1, &[1]),
+        (127, &[127]),
+        (128, &[128, 128]),
+        (129, &[128, 129]),
+        (255, &[128, 255]),
+        (256, &[129, 0]),
+        ((1 << 14) - 1, &[191, 255]),
+        (1 << 14, &[192, 64, 0]),
+        ((1 << 21) - 1, &[223, 255, 255]),
+        (1 << 21, &[224, 32, 0, 0]),
+        ((1 << 28) - 1, &[239, 255, 255, 255]),
+        (1 << 28, &[240, 16, 0, 0, 0]),
+        ((1 << 30) - 1, &[240, 63, 255, 255, 255]),
+        ((1 << 57) - 1, &[255, 1, 255, 255, 255, 255, 255, 255, 255]),
+        (1 << 57, &[255, 2, 0, 0, 0, 0, 0, 0, 0]),
+        ((1 << 63) + 1, &[255, 128, 0, 0, 0, 0, 0, 0, 1]),
+        (u64::MAX, &[255, 255, 255, 255, 255, 255, 255, 255, 255]),
+    ];
+    for (v, b) in vints {
+        if unsigned_vint(*v) != *b {
+            return Err(format!("unsigned_vint({v}) = {:?}, pinned {:?}", unsigned_vint(*v), b));
+        }
+        let mut r: &[u8] = b;
+        if read_unsigned_vint(&mut r) != Ok(*v) || !r.is_empty() {
+            return Err(format!("read_unsigned_vint({b:?}) != {v}"));
+        }
+        n += 1;
+    }
+    for (i, z) in [(0i64, 0u64), (-1, 1), (1, 2), (-2, 3), (2, 4), (-3, 5), (3, 6)] {
+        if zigzag(i) != z || unzigzag(z) != i {
+            return Err(format!("zigzag({i})"));
+        }
+        n += 1;
+    }
+    let nat = |x: Native| Type::Native(x);
+    let mut triples: Vec<(Type, Value, Vec<u8>)> = vec![
+        (nat(Native::Duration), Value::Duration { months: 1, days: 2, nanos: 3 }, vec![0, 0, 0, 3, 2, 4, 6]),
+        (nat(Native::Int), Value::Empty, vec![0, 0, 0, 0]),
+        (nat(Native::Int), Value::Int(123), vec![0, 0, 0, 4, 0, 0, 0, 123]),
+        (nat(Native::Boolean), Value::Boolean(true), vec![0, 0, 0, 1, 1]),
+        (nat(Native::Text), Value::Text("ala".into()), vec![0, 0, 0, 3, b'a', b'l', b'a']),
+        (nat(Native::Inet), Value::Inet(vec![1, 2, 3, 4]), vec![0, 0, 0, 4, 1, 2, 3, 4]),
+        (nat(Native::Date), Value::Date(1 << 31), vec![0, 0, 0, 4, 128, 0, 0, 0]),
+        (nat(Native::Counter), Value::Counter(0x0123456789abcdef), vec![0, 0, 0, 8, 0x01, 0x23, 0x45, 0x67, 0x89, 0xab, 0xcd, 0xef]),
+        (nat(Native::Int), Value::Null, vec![255, 255, 255, 255]),
+        (nat(Native::Int), Value::Unset, vec![255, 255, 255, 254]),
+        (
+            Type::Vector(Box::new(nat(Native::Int)), 2),
+            Value::Vector(vec![Value::Int(1), Value::Int(2)]),
+            vec![0, 0, 0, 8, 0, 0, 0, 1, 0, 0, 0, 2],
+        ),
+        (
+            Type::List(Box::new(nat(Native::Int))),
+            Value::List(vec![Value::Int(1), Value::Int(2)]),
+            vec![0, 0, 0, 20, 0, 0, 0, 2, 0, 0, 0, 4, 0, 0, 0, 1, 0, 0, 0, 4, 0, 0, 0, 2],
+        ),
+        (
+            Type::Map(Box::new(nat(Native::Int)), Box::new(nat(Native::Boolean))),
+            Value::Map(vec![(Value::Int(1), Value::Boolean(false))]),
+            vec![0, 0, 0, 17, 0, 0, 0, 1, 0, 0, 0, 4, 0, 0, 0, 1, 0, 0, 0, 1, 0],
+        ),
+    ];
+    // varint cases "from the spec" (serialize/value_tests.rs), also as decimal with exponent
+    for (bytes, _i) in [(vec![0x00u8], 0i64), (vec![0x01], 1), (vec![0x7F], 127), (vec![0x00, 0x80], 128), (vec![0x00, 0x81], 129), (vec![0xFF], -1), (vec![0x80], -128), (vec![0xFF, 0x7F], -129)] {
+        let mut framed = (bytes.len() as i32).to_be_bytes().to_vec();
+        framed.extend_from_slice(&bytes);
+        triples.push((nat(Native::Varint), Value::Varint(bytes.clone()), framed));
+        let mut framed = (bytes.len() as i32 + 4).to_be_bytes().to_vec();
+        framed.extend_from_slice(&(-7i32).to_be_bytes());
+        framed.extend_from_slice(&bytes);
+        triples.push((nat(Native::Decimal), Value::Decimal { scale: -7, unscaled: bytes }, framed));
+    }
+    // UDT by name / tuple prefix (cqlvalue_serialization)
+    let udt_t = Type::Udt { keyspace: "ks".into(), name: "t".into(), fields: vec![("foo".into(), nat(Native::Int)), ("bar".into(), nat(Native::Text))] };
+    let udt_bytes = vec![0, 0, 0, 12, 0, 0, 0, 4, 0, 0, 0, 123, 255, 255, 255, 255];
+    triples.push((udt_t.clone(), Value::Udt(vec![("foo".into(), Value::Int(123)), ("bar".into(), Value::Null)]), udt_bytes.clone()));
+    triples.push((udt_t.clone(), Value::Udt(vec![("bar".into(), Value::Null), ("foo".into(), Value::Int(123))]), udt_bytes.clone()));
+    triples.push((udt_t, Value::Udt(vec![("foo".into(), Value::Int(123))]), udt_bytes.clone()));
+    triples.push((Type::Tuple(vec![nat(Native::Int), nat(Native::Text)]), Value::Tuple(vec![Value::Int(123), Value::Null]), udt_bytes.clone()));
+    triples.push((Type::Tuple(vec![nat(Native::Int), nat(Native::Text), nat(Native::Counter)]), Value::Tuple(vec![Value::Int(123), Value::Null]), udt_bytes));
+    for (t, v, b) in &triples {
+        let cell = encode(t, v)?;
+        if cell.framed() != *b {
+            return Err(format!("encode({t}, {v:?}) = {:?}, pinned {:?}", cell.framed(), b));
+        }
+        if *v != Value::Unset {
+            let back = decode(t, &cell)?;
+            let want = canon(t, v)?;
+            if back != want {
+                return Err(format!("decode(encode({t}, {v:?})) = {back:?}, canon = {want:?}"));
+            }
+        }
+        // display/parse of types
+        if parse_type(&t.to_string()).as_ref() != Ok(t) {
+            return Err(format!("type display/parse does not round-trip for {t}"));
+        }
+        n += 1;
+    }
+    Ok(n)
+}
+
+#[cfg(test)]
+mod tests {
+    #[test]
+    fn pinned() {
+        super::self_test().unwrap();
+    }
+}
